@@ -266,3 +266,47 @@ def shrink(case):
             yield dict(case, **{key: l[:i] + l[i + 1:]})
     if case["dialog"] and case["ver"] == "1.0":
         yield dict(case, dialog=False)
+
+
+# ------------------------------------------------------------------ regions of the recorded open findings
+
+import re as _re
+
+
+def failing_turn(msg):
+    m = _re.match(r"turn (\d+):", msg or "")
+    return int(m.group(1)) - 1 if m else None
+
+
+def after_hidden_turn_v1(case, obs, k):
+    """Colang 1.0: some earlier turn ended with the internal-error result (`hide_prev_turn`)."""
+    return case["ver"] == "1.0" and k is not None and any(
+        (o["reply"] or {}).get("content") == INTERNAL_ERROR for o in obs["turns"][:k] if not o["raised"])
+
+
+def after_output_block_v2(case, obs, k):
+    """Colang 2.x: in some earlier turn an invoked output rail rejected or failed (the rails aborted)."""
+    if case["ver"] != "2.x" or k is None:
+        return False
+    for tc, to in list(zip(case["turns"], obs["turns"]))[:k]:
+        for s in rail_calls(to, "out"):
+            if verdict_of(tc, "out", s[2]) in ("r", "f"):
+                return True
+    return False
+
+
+SIG_STALE = "v1-stale-context-after-hidden-turn"
+SIG_FLAG = "v2-output-rails-skipped-after-abort"
+
+
+def region_signature(case, obs, msg, oracle_codes_stale=(), oracle_codes_flag=()):
+    """Structural signature of a failing case: which recorded defect region (if any) it lies in.
+    `msg` starts with "turn N: [code] …" for oracle failures; comparison failures carry no code."""
+    k = failing_turn(msg)
+    m = _re.match(r"turn \d+: \[([a-z-]+)\]", msg or "")
+    code = m.group(1) if m else None
+    if after_hidden_turn_v1(case, obs, k) and (code is None or code in oracle_codes_stale):
+        return SIG_STALE
+    if after_output_block_v2(case, obs, k) and (code is None or code in oracle_codes_flag):
+        return SIG_FLAG
+    return None
